@@ -200,6 +200,29 @@ def _stores_after_uses(graph, name, paths):
     return True
 
 
+NAMEDTUPLES = {}     # constructor name -> field names (filled by the index)
+
+
+def _project(ctor_call, field=None, position=None):
+    """NT(a, b).f / NT(a, b)[i] / NT(f=a).f -> the argument, else None."""
+    if not (isinstance(ctor_call, ast.Call) and
+            isinstance(ctor_call.func, ast.Name) and
+            ctor_call.func.id in NAMEDTUPLES):
+        return None
+    fields = NAMEDTUPLES[ctor_call.func.id]
+    if field is not None:
+        if field not in fields:
+            return None
+        position = fields.index(field)
+        for kw in ctor_call.keywords:
+            if kw.arg == field:
+                return kw.value
+    if position is not None and 0 <= position < len(ctor_call.args) and \
+            not any(isinstance(a, ast.Starred) for a in ctor_call.args):
+        return ctor_call.args[position]
+    return None
+
+
 class _Subst(ast.NodeTransformer):
     def __init__(self, env, depth=0):
         self.env = env
@@ -213,8 +236,25 @@ class _Subst(ast.NodeTransformer):
             return _Subst(self.env, self.depth + 1).visit(val)
         return node
 
+    def visit_Attribute(self, node):
+        node = self.generic_visit(node)
+        if isinstance(node.ctx, ast.Load):
+            hit = _project(node.value, field=node.attr)
+            if hit is not None:
+                return hit
+        return node
+
     def visit_Subscript(self, node):
         node = self.generic_visit(node)
+        if isinstance(node.ctx, ast.Load) and isinstance(
+                node.slice, ast.Constant) and isinstance(
+                    node.slice.value, int):
+            hit = _project(node.value, position=node.slice.value)
+            if hit is not None:
+                return hit
+            if isinstance(node.value, ast.Tuple) and \
+                    0 <= node.slice.value < len(node.value.elts):
+                return node.value.elts[node.slice.value]
         # {'k': v, ...}['k']  ->  v  (a record built and read back)
         if isinstance(node.value, ast.Dict) and \
                 isinstance(node.slice, ast.Constant) and \
